@@ -10,6 +10,7 @@ import (
 	"encoding/json"
 	"fmt"
 	"os"
+	"reflect"
 	"runtime"
 	"strings"
 )
@@ -66,6 +67,10 @@ var cur struct {
 func pop(kind string) int64 {
 	if cur.vec == nil {
 		panic("vrt: no replay vector loaded (native harness code only runs under replay)")
+	}
+	// map-iteration orders chosen by the engine cannot be imposed on the Go runtime
+	for cur.pos < len(cur.vec.Values) && cur.vec.Values[cur.pos].Kind == "perm" {
+		cur.pos++
 	}
 	if cur.pos >= len(cur.vec.Values) {
 		panic(fmt.Sprintf("vrt: replay vector exhausted at value %d (%s)", cur.pos, kind))
@@ -299,4 +304,104 @@ func Main() int {
 		}
 	}
 	return bad
+}
+
+// ---------------------------------------------------------------- Freeze (C13)
+
+// Freeze: every heap object reachable from x becomes read-only. The engine
+// reports any store into it as a violation; natively a deep structural hash is
+// taken here (through reflect, unexported fields included) and compared again
+// by CheckFrozen.
+func Freeze(x interface{}) {
+	frozenVals = append(frozenVals, x)
+	frozenSums = append(frozenSums, deepHash(reflect.ValueOf(x), map[uintptr]bool{}, 0))
+}
+
+// CheckFrozen fails (as an assertion) if a frozen object has changed.
+func CheckFrozen() {
+	for i, x := range frozenVals {
+		if deepHash(reflect.ValueOf(x), map[uintptr]bool{}, 0) != frozenSums[i] {
+			frozenVals, frozenSums = nil, nil
+			panic(assertFailure{"frozen: store to memory reachable from the frozen template"})
+		}
+	}
+	frozenVals, frozenSums = nil, nil
+}
+
+var frozenVals []interface{}
+var frozenSums []uint64
+
+func mix(h uint64, x uint64) uint64 {
+	h ^= x
+	h *= 1099511628211
+	return h
+}
+
+func hashString(s string) uint64 {
+	h := uint64(14695981039346656037)
+	for i := 0; i < len(s); i++ {
+		h = mix(h, uint64(s[i]))
+	}
+	return h
+}
+
+func deepHash(v reflect.Value, seen map[uintptr]bool, depth int) uint64 {
+	h := uint64(14695981039346656037)
+	if !v.IsValid() || depth > 100 {
+		return h
+	}
+	h = mix(h, uint64(v.Kind()))
+	switch v.Kind() {
+	case reflect.Bool:
+		if v.Bool() {
+			h = mix(h, 1)
+		}
+	case reflect.Int, reflect.Int8, reflect.Int16, reflect.Int32, reflect.Int64:
+		h = mix(h, uint64(v.Int()))
+	case reflect.Uint, reflect.Uint8, reflect.Uint16, reflect.Uint32, reflect.Uint64, reflect.Uintptr:
+		h = mix(h, v.Uint())
+	case reflect.Float32, reflect.Float64:
+		h = mix(h, hashString(fmt.Sprint(v.Float())))
+	case reflect.String:
+		h = mix(h, hashString(v.String()))
+	case reflect.Ptr:
+		if v.IsNil() {
+			return mix(h, 0)
+		}
+		p := v.Pointer()
+		if seen[p] {
+			return mix(h, 7)
+		}
+		seen[p] = true
+		h = mix(h, deepHash(v.Elem(), seen, depth+1))
+	case reflect.Interface:
+		if v.IsNil() {
+			return mix(h, 0)
+		}
+		h = mix(h, hashString(v.Elem().Type().String()))
+		h = mix(h, deepHash(v.Elem(), seen, depth+1))
+	case reflect.Struct:
+		for i := 0; i < v.NumField(); i++ {
+			h = mix(h, deepHash(v.Field(i), seen, depth+1))
+		}
+	case reflect.Slice, reflect.Array:
+		h = mix(h, uint64(v.Len()))
+		for i := 0; i < v.Len(); i++ {
+			h = mix(h, deepHash(v.Index(i), seen, depth+1))
+		}
+	case reflect.Map:
+		h = mix(h, uint64(v.Len()))
+		var acc uint64
+		it := v.MapRange()
+		for it.Next() {
+			// order-independent combination of the entries
+			s2 := map[uintptr]bool{}
+			for k := range seen {
+				s2[k] = true
+			}
+			acc += mix(deepHash(it.Key(), s2, depth+1), deepHash(it.Value(), s2, depth+1))
+		}
+		h = mix(h, acc)
+	}
+	return h
 }
